@@ -443,6 +443,9 @@ def one_case(ctx, rng, idx, out):
             except Unsupported:
                 continue
             out["vm"].append(("sx_load default_world %s" % P.prog_coq(ops), expected, dict(case, corr="vm", generation=gen_i + 1)))
+            shared = _has_shared_container(ops)
+            ctx.count("dump:with-shared-mutable-container" if shared else "dump:no-shared-mutable-container")
+            out["acc"].append(("sx_bool (accepts %s %s)" % (P.prog_coq(ops), pcoq), not shared, dict(case, corr="accepts", generation=gen_i + 1, shared=shared)))
             memo_kind, prev = {}, None
             for o in ops:
                 ctx.count("dump-op:" + o[0])
@@ -511,6 +514,25 @@ def one_case(ctx, rng, idx, out):
                                 dict(case, corr="json")))
         except Unsupported:
             ctx.count("corr:json-outside-model")
+
+
+def _has_shared_container(ops):
+    """a BINGET whose memo entry was made right after EMPTY_LIST / EMPTY_DICT / EMPTY_SET / NEWOBJ / a
+    tuple or frozenset that (transitively) contains one: the dump shares a mutable object"""
+    memo_kind, prev, n = {}, None, 0
+    stack_mut = []   # crude: names of memoised mutable producers
+    for o in ops:
+        if o[0] == "MEMOIZE":
+            memo_kind[n] = prev
+            n += 1
+        elif o[0] in ("BINPUT", "LONG_BINPUT", "PUT"):
+            memo_kind[o[1]] = prev
+            n += 1
+        elif o[0] in ("BINGET", "LONG_BINGET", "GET"):
+            if memo_kind.get(o[1]) in ("EMPTY_LIST", "EMPTY_DICT", "EMPTY_SET", "NEWOBJ", "TUPLE", "TUPLE1", "TUPLE2", "TUPLE3"):
+                return True
+        prev = o[0]
+    return False
 
 
 def _json_model_domain(p):
@@ -691,13 +713,15 @@ def fixed_witnesses(ctx):
 
 def run(ctx):
     n = 2600 if ctx.thorough else 640
-    out = {"vm": [], "enc": [], "json": [], "enc_max": 600 if ctx.thorough else 160}
+    out = {"vm": [], "enc": [], "json": [], "acc": [], "enc_max": 600 if ctx.thorough else 160}
     for i in range(n):
         one_case(ctx, ctx.rng, i, out)
     out["json"] += fixed_witnesses(ctx)
     hdr = "From DD Require Import Base.PyStr Base.Value Pickle.Vm Pickle.Codec Pickle.PickleShow.\nLocal Open Scope Z_scope."
     ctx.coq_cases("c14_vm", hdr, out["vm"], shard=60, label="real dumps on the model VM")
     ctx.coq_cases("c14_json", hdr, out["json"], shard=120, label="json value + json round trip")
+    ctx.coq_cases("c14_accepts", hdr.replace("Pickle.PickleShow.", "Pickle.PickleShow Pickle.Encodes."), out["acc"], shard=60,
+                  label="real dumps in the proved encoding class (accepts)")
     encoder_part(ctx, out["enc"])
     if out["vm"]:
         ctx.sample({"case": out["vm"][0][2], "expected": out["vm"][0][1]})
